@@ -167,6 +167,63 @@ fn c03_emit_decode_roundtrip_with_jumps() {
     assert!(it.next().is_none());
 }
 
+/// Same round trip for the literal-carrying and variable-length layouts: StoreInt8/16/32, StoreFloat, StoreDouble
+/// (signed and floating operands, bit-exact incl. NaN payloads and -0) and a JumpTable with two targets patched by
+/// `patch_jump_table`.
+// BOUND: one fixed 6-instruction body shape (operands symbolic), jump table of 2 entries
+// FN: BytecodeEmitter::emit_store_int8, BytecodeEmitter::emit_store_int16, BytecodeEmitter::emit_store_int32, BytecodeEmitter::emit_store_float, BytecodeEmitter::emit_store_double, BytecodeEmitter::emit_jump_table, BytecodeEmitter::patch_jump_table, Bytecode::next_instruction
+#[kani::proof]
+#[kani::unwind(60)]
+fn c03_emit_decode_roundtrip_literals_and_table() {
+    let (r, a, b, c): (u32, i8, i16, i32) = (kani::any(), kani::any(), kani::any(), kani::any());
+    let (f, g): (f32, f64) = (kani::any(), kani::any());
+    let idx: u32 = kani::any();
+    let mut e = BytecodeEmitter::new();
+    e.emit_store_int8(RegisterOperand::new(r), a);
+    e.emit_store_int16(RegisterOperand::new(r), b);
+    let pc2 = e.next_opcode_location();
+    e.emit_store_int32(RegisterOperand::new(r), c);
+    e.emit_store_float(RegisterOperand::new(r), f);
+    let pc4 = e.next_opcode_location();
+    e.emit_store_double(RegisterOperand::new(r), g);
+    let table_pc = e.next_opcode_location();
+    let mut placeholders: ThinVec<Address> = ThinVec::new();
+    placeholders.push(Address::new(u32::MAX));
+    placeholders.push(Address::new(u32::MAX));
+    e.emit_jump_table(idx, placeholders);
+    let end = e.next_opcode_location();
+    // as at the call sites (jump_control.rs, generator.rs): the label is the opcode location + 4, skipping the
+    // u32 `index` operand that precedes the table
+    e.patch_jump_table(Address::new(u32::from(table_pc) + 4), &[pc2, pc4]);
+    kani::cover!(g.is_nan() && a < 0);
+    let code = e.into_bytecode();
+    assert!(code.bytes.len() == u32::from(end) as usize);
+    let mut it = InstructionIterator::new(&code);
+    let Some((_, _, i0)) = it.next() else { panic!("early end") };
+    assert!(matches!(i0, Instruction::StoreInt8 { dst, value } if u32::from(dst) == r && value == a));
+    let Some((_, _, i1)) = it.next() else { panic!("early end") };
+    assert!(matches!(i1, Instruction::StoreInt16 { dst, value } if u32::from(dst) == r && value == b));
+    let Some((p2, _, i2)) = it.next() else { panic!("early end") };
+    assert!(p2 == u32::from(pc2) as usize);
+    assert!(matches!(i2, Instruction::StoreInt32 { dst, value } if u32::from(dst) == r && value == c));
+    let Some((_, _, i3)) = it.next() else { panic!("early end") };
+    assert!(matches!(i3, Instruction::StoreFloat { dst, value } if u32::from(dst) == r && value.to_bits() == f.to_bits()));
+    let Some((p4, _, i4)) = it.next() else { panic!("early end") };
+    assert!(p4 == u32::from(pc4) as usize);
+    assert!(matches!(i4, Instruction::StoreDouble { dst, value } if u32::from(dst) == r && value.to_bits() == g.to_bits()));
+    let Some((p5, op5, i5)) = it.next() else { panic!("early end") };
+    assert!(p5 == u32::from(table_pc) as usize && op5 == Opcode::JumpTable);
+    match i5 {
+        Instruction::JumpTable { index, addresses } => {
+            assert!(index == idx && addresses.len() == 2);
+            // both table targets are starts of instructions of this body
+            assert!(addresses[0] == pc2 && addresses[1] == pc4);
+        }
+        _ => panic!("not a jump table"),
+    }
+    assert!(it.next().is_none());
+}
+
 #[kani::proof]
 #[kani::unwind(14)]
 fn c03_opcode_canary_must_fail() {
